@@ -120,6 +120,10 @@ func (f *RawMessageFilter) ConsumeCacheMessages(consensusMessagesHandler Consens
 		f.logger.Debug("LHFILTER consuming %d messages from height=%d", len(messages), height)
 	}
 	for _, message := range messages {
+		if f.state.Height() != height {
+			// the cached messages completed this height and a later term has taken over: the rest is history
+			break
+		}
 		f.processConsensusMessage(message)
 	}
 	delete(f.futureCache, height)
